@@ -39,6 +39,65 @@ def make_archives(payload, name):
     out["xz-crc32"] = lzma.compress(payload, format=lzma.FORMAT_XZ, check=lzma.CHECK_CRC32, preset=1)
     return out
 
+def crc16_arc(b, c=0):
+    for x in b:
+        c ^= x
+        for _ in range(8):
+            c = (c >> 1) ^ 0xA001 if c & 1 else c >> 1
+    return c
+
+def noise_mod(rng, nbytes=1536, nsmp=1):
+    """a Protracker module with samples of white noise (incompressible: deflate/LZMA2 keep them verbatim)"""
+    import struct
+    b = bytearray(b"noise".ljust(20, b"\0"))
+    for i in range(nsmp):
+        b += b"smp".ljust(22, b"\0") + struct.pack(">HBBHH", nbytes // 2, 0, 64, 0, 1)
+    for i in range(31 - nsmp):
+        b += bytes(22) + struct.pack(">HBBHH", 0, 0, 0, 0, 1)
+    b += bytes([1, 0x7f]) + bytes(128) + b"M.K." + bytes(1024)
+    b += rng.randbytes(nbytes * nsmp) if hasattr(rng, "randbytes") else bytes(rng.randrange(256) for _ in range(nbytes * nsmp))
+    return bytes(b)
+
+def tune_tail_crc16(payload, target):
+    """append two bytes so that CRC-16/ARC(payload) == target (modules tolerate trailing bytes)"""
+    base = crc16_arc(payload)
+    for a in range(256):
+        c1 = crc16_arc(bytes([a]), base)
+        for b in range(256):
+            if crc16_arc(bytes([b]), c1) == target:
+                return payload + bytes([a, b])
+    return None
+
+def arcfs_stored(payload, name=b"m.mod"):
+    hdr = b"Archive\x00" + (36).to_bytes(4, "little") + (96 + 36).to_bytes(4, "little") + (0x0a).to_bytes(4, "little") * 3
+    hdr += b"\x00" * (96 - len(hdr))
+    ent = bytearray(36)
+    ent[0] = 0x82
+    ent[1:12] = name[:11].ljust(11, b"\x00")
+    ent[12:16] = len(payload).to_bytes(4, "little")
+    ent[26:28] = crc16_arc(payload).to_bytes(2, "little")
+    ent[28:32] = len(payload).to_bytes(4, "little")
+    return hdr + bytes(ent) + payload
+
+def partial_collisions(payload, region, crcfun, width, rng, per_byte=3):
+    """substitutions inside payload[region] whose check value differs from the original but agrees with it in one
+    whole byte (aimed at comparisons made at a truncated width): list of (payload offset, new value)"""
+    orig = crcfun(payload)
+    found = {k: [] for k in range(width)}
+    lo, hi = region
+    tries = 0
+    while any(len(v) < per_byte for v in found.values()) and tries < 40000:
+        tries += 1
+        off = rng.randrange(lo, hi)
+        v = rng.randrange(256)
+        if v == payload[off]:
+            continue
+        c = crcfun(payload[:off] + bytes([v]) + payload[off + 1:])
+        for k in range(width):
+            if ((c >> (8 * k)) & 0xff) == ((orig >> (8 * k)) & 0xff) and c != orig and len(found[k]) < per_byte:
+                found[k].append((off, v))
+    return [x for v in found.values() for x in v]
+
 def main():
     tier = sys.argv[1] if len(sys.argv) > 1 else "quick"
     replay = sys.argv[sys.argv.index("--replay") + 1] if "--replay" in sys.argv else None
@@ -88,6 +147,38 @@ def main():
             p = os.path.join(tmpd, tag)
             open(p, "wb").write(blob)
             archives.append((tag, p, md5, len(blob)))
+        # archives of a noise-sample module: stored / raw regions map 1:1 to payload bytes; check values at the code's
+        # special cases (ArcFS: stored CRC 0 means "no check") and substitutions that keep one byte of the check value
+        nm = noise_mod(rng)
+        nmd5 = hashlib.md5(nm).hexdigest()
+        targeted = {}
+        extra = {"n-gzip-stored": make_archives(nm, "n.mod")["gzip-stored"], "n-zip-stored": make_archives(nm, "n.mod")["zip-stored"],
+                 "n-xz-crc32": lzma.compress(nm, format=lzma.FORMAT_XZ, check=lzma.CHECK_CRC32, preset=0), "n-arcfs": arcfs_stored(nm)}
+        noise_at = len(nm) - 1536
+        # xz: LZMA2 writes a chunk uncompressed only if it does not shrink, so use a module that is almost all noise
+        big = noise_mod(rng, 65534, 3)
+        extra["n-xz-crc32"] = lzma.compress(big, format=lzma.FORMAT_XZ, check=lzma.CHECK_CRC32, preset=0)
+        for tag, blob in extra.items():
+            pl = big if tag == "n-xz-crc32" else nm
+            noise_at = len(pl) - 1536
+            base_off = blob.find(pl[noise_at:noise_at + 64])
+            if base_off < 0:
+                ck.engine_stat("skipped", **{tag: "noise region not stored verbatim by the encoder"})
+                continue
+            nm_, nmd5_ = pl, hashlib.md5(pl).hexdigest()
+            pth = os.path.join(tmpd, tag)
+            open(pth, "wb").write(blob)
+            archives.append((tag, pth, nmd5_, len(blob)))
+            fn, width = ((lambda b: crc16_arc(b)), 2) if "arcfs" in tag else ((lambda b: zlib.crc32(b) & 0xffffffff), 4)
+            cols = partial_collisions(nm_, (noise_at, noise_at + 1500), fn, width, rng, per_byte=3 if tier == "quick" else 12)
+            targeted[tag] = [(base_off + (o - noise_at), v) for o, v in cols if blob[base_off + (o - noise_at)] == nm_[o]]
+        for tgt in (0x3700, 0x0100, 0x00c5):
+            tp = tune_tail_crc16(nm, tgt)
+            if tp:
+                tag = "n-arcfs-crc%04x" % tgt
+                pth = os.path.join(tmpd, tag)
+                open(pth, "wb").write(arcfs_stored(tp))
+                archives.append((tag, pth, hashlib.md5(tp).hexdigest(), len(arcfs_stored(tp))))
         for f in ("arc-method2", "arc-method8-rle" if tier == "thorough" else None, "arcfsdata", "lzxstore", "lzxdata", "arc-subdir-spark"):
             if f and os.path.exists(os.path.join(data, f)):
                 if f.startswith("arcfs"):
@@ -110,17 +201,21 @@ def main():
                 rp = json.load(open(replay))
                 cmds.append("%s %d %d" % (rp["op"], rp["off"], rp["arg"])); meta.append((tag, rp["op"], rp["off"], rp["arg"]))
                 continue
-            full = size <= (900 if tier == "quick" else 40000)
+            full = size <= (900 if tier == "quick" else 40000) and not tag.startswith("n-")
             for off in range(size):
                 if full or off < 48 or off >= size - 24:
                     bits = range(8)
+                elif size >= 100000:
+                    bits = [rng.randrange(8)] if rng.randrange(2000) == 0 else []
                 elif tier == "quick":
                     bits = [rng.randrange(8)] if off % 9 == rng.randrange(9) else []
                 else:
                     bits = [rng.randrange(8)] if off % 2 == 0 else []
                 for b in bits:
                     cmds.append("F %d %d" % (off, 1 << b)); meta.append((tag, "F", off, 1 << b))
-            nsub = 150 if tier == "quick" else 3000
+            for off, v in targeted.get(tag, []):
+                cmds.append("S %d %d" % (off, v)); meta.append((tag, "S", off, v))
+            nsub = (150 if tier == "quick" else 3000) if size < 100000 else 40
             for _ in range(nsub):
                 off = rng.randrange(size)
                 v = rng.randrange(256)
